@@ -95,8 +95,10 @@ def standin_scipy(tier, seed):
     for kind, kw, n_ft in kinds:
         df, ids = person_cohort(seed, n_ft)
         data = Data.from_dataframe(df)
-        for origin, model in models_for(kind, kw, n_ft, seed):
-            what = f"scipy_minimize on a {origin} {kind}{kw or ''} model"
+        for (origin, model), use_jac in [(om, uj) for om in models_for(kind, kw, n_ft, seed) for uj in (False, True)]:
+            if use_jac and origin != "fitted" and tier == "quick":
+                continue
+            what = f"scipy_minimize{' (use_jacobian=True)' if use_jac else ''} on a {origin} {kind}{kw or ''} model"
             calls = []
             real_minimize = sm.minimize
 
@@ -111,14 +113,14 @@ def standin_scipy(tier, seed):
             try:
                 torch.manual_seed(seed)
                 with quiet():
-                    ip = model.personalize(data, "scipy_minimize", seed=seed, progress_bar=False, n_jobs=1)
+                    ip = model.personalize(data, "scipy_minimize", seed=seed, progress_bar=False, n_jobs=1, use_jacobian=use_jac)
             except Exception as e:
                 violations.append(dict(key=f"{what}: raised {type(e).__name__}: {str(e)[:100]}"))
                 continue
             finally:
                 sm.minimize = real_minimize
             evals += 1
-            distinct.add((kind, str(kw), origin))
+            distinct.add((kind, str(kw), origin, use_jac))
             if not check_alignment(ip, ids, model, what, violations):
                 continue
             if len(calls) != len(ids):
@@ -157,7 +159,9 @@ def standin_sampling(tier, seed):
                      dict(n_iter=20, n_burn_in_iter=None, n_burn_in_iter_frac=0.5),
                      dict(n_iter=15, n_burn_in_iter=6, annealing=dict(do_annealing=True, initial_temperature=4.0, n_plateau=3, n_iter=6)),
                      # a long chain (many more kept draws than any fixed-size buffer would hold)
-                     dict(n_iter=1500, n_burn_in_iter=100)]
+                     dict(n_iter=1500, n_burn_in_iter=100),
+                     # annealing that goes on after the burn-in: kept draws sampled at a temperature > 1 are compared by their plain loss
+                     dict(n_iter=24, n_burn_in_iter=4, annealing=dict(do_annealing=True, initial_temperature=8.0, n_plateau=6, n_iter=22))]
     for kind, kw, n_ft in kinds:
         df, ids = person_cohort(seed, n_ft)
         data = Data.from_dataframe(df)
